@@ -173,6 +173,13 @@ def opsOf (e : Ent) : List Ent := (children e).filter (fun c => kindOf c == some
 /-- `Shape.center`: average of the operation centres -/
 def shapeCenter (h : Heap) (e : Ent) : V3 := avg ((opsOf e).map (opCenter h))
 
+/-- `shape.center` of a member of an assembly: a sphere shape reports its own centre point (the last part but one),
+    every other shape the average of its operation centres -/
+def shapeLikeCenter (h : Heap) (e : Ent) : Option V3 :=
+  match e with
+  | .node .sphere _ ch => (ch.getD (ch.length - 2) (.arr [])) |> ptOf h
+  | _ => some (shapeCenter h e)
+
 /-- centre of a curve entity; `oc` is the observed centre for kinds without a modelled rule -/
 def curveCenter (h : Heap) (oc : Option V3) (e : Ent) : Option V3 :=
   match e with
@@ -198,7 +205,7 @@ def center (h : Heap) (oc : Option V3) (e : Ent) : Option V3 :=
     | .sphere => (ch.getD (ch.length - 2) (.arr [])) |> ptOf h
     | .joint => (ch.getD (ch.length - 1) (.arr [])) |> ptOf h
     | .stack => some (avg ((ch.flatMap opsOf).map (opCenter h)))
-    | .asm => some (avg (ch.map (shapeCenter h)))
+    | .asm => (ch.mapM (shapeLikeCenter h)).map avg
     | .grid =>
         match ch.head?, ch.getLast? with
         | some f0, some fl =>
